@@ -76,7 +76,9 @@ structure Field (V : Type) where
 /-- decorators.py:69-70: an empty annotation becomes `Any` (a "plain" field). -/
 def annClass (a : Option TyClass) : TyClass := a.getD .plain
 
-/-- decorators.py:73-78 -/
+/-- decorators.py:73-78. Only a *plain function* (`inspect.isfunction`) becomes a default factory;
+    every other default — including callable objects such as `functools.partial` objects,
+    `config_for`/`Partial` instances and classes — is a `Dflt.value` and is passed on untouched. -/
 def mainDefault : Option (Dflt V) → FDefault V
   | none => .missing
   | some (.func _ r) => .factory r          -- `inspect.isfunction(default)` ⇒ default_factory
